@@ -218,6 +218,11 @@ class StmtMixin(CallMixin):
                 self.heap_write(s, base, target.attr, val)
                 yield None, s
             return
+        if isinstance(target, ast.Subscript) and ast.unparse(target.value) == "os.environ" and "os" not in st.locals:
+            # the process environment is not part of the modelled state (read back only by child processes)
+            for vals, s in self.ev_many([target.slice], st):
+                yield (vals if isinstance(vals, Raise) else None), s
+            return
         if isinstance(target, ast.Subscript):
             if isinstance(target.slice, ast.Slice):
                 raise UnsupportedError("slice assignment")
